@@ -98,6 +98,18 @@ def make_oracle(F):
                 # constructors may reject parameters: both outcomes are explored, only Ok trees are analysed
                 return TOP if False else ok(leaf)
             return leaf
+        # a validating constructor that returns the component itself (`from_params(..) -> ExecResult<Self>`, boxed by the caller):
+        # the same leaf, one step earlier
+        if f.get("kind") == "def" and (k.startswith("mahf::components::") or k.startswith("mahf::conditions::")) and not inline_pred(k):
+            base = ret[len("core::result::Result<"):] if ret.startswith("core::result::Result<") else ret
+            adt_ = base.split("<")[0].split(",")[0].strip()
+            kinds_ = getattr(F, "_leaf_kinds", None)
+            if kinds_ is None:
+                to_tree(F, {}, Agg("adt", "?", None, []))      # (fills F._leaf_kinds)
+                kinds_ = getattr(F, "_leaf_kinds", {})
+            if adt_ in kinds_ and not adt_.startswith(CF) and f.get("self_adt") == adt_:
+                leaf = Agg("leaf", None, None, [Leaf(kinds_[adt_], adt_, k, [a for a in args], f.get("gargs"), t.get("line"))])
+                return ok(leaf) if ret.startswith("core::result::Result<") else leaf
         return TOP
     return oracle
 
@@ -169,6 +181,17 @@ def to_tree(F, heap, v, depth=0):
             ops = v.fields[0]
             kids = [to_tree(F, heap, x, depth + 1) for x in heap.get(ops.vid, ())] if isinstance(ops, Vec) else [to_tree(F, heap, ops, depth + 1)]
             return Node("leaf", v.name, leaf=Leaf("condition", v.name, None, kids, None))
+        # a component / condition built by a struct literal instead of its constructor (`Box::new(AcoGeneration { .. })`): the same leaf
+        kinds_ = getattr(F, "_leaf_kinds", None)
+        if kinds_ is None:
+            kinds_ = F._leaf_kinds = {}
+            for im in F.impls:
+                if im.get("self_adt") and im.get("trait") == "mahf::components::Component":
+                    kinds_[im["self_adt"]] = "component"
+                elif im.get("self_adt") and im.get("trait") == "mahf::conditions::Condition":
+                    kinds_.setdefault(im["self_adt"], "condition")
+        if v.name in kinds_ and not v.name.startswith(CF):
+            return Node("leaf", v.name, leaf=Leaf(kinds_[v.name], v.name, None, list(v.fields), getattr(v, "gargs", None)))
     return Node("unknown", repr(v)[:80])
 
 
